@@ -313,6 +313,7 @@ constexpr void change_attribute(
     change_effect(source.intensity_, dest.intensity_, change_appended, wc);
     change_effect(source.polarity_, dest.polarity_, change_appended, wc);
     change_effect(source.underlining_, dest.underlining_, change_appended, wc);
+    change_effect(source.blinking_, dest.blinking_, change_appended, wc);
     change_foreground_colour(
         source.foreground_colour_,
         dest.foreground_colour_,
